@@ -35,7 +35,11 @@ class Boom(Exception):
     pass
 
 
-def _mk_ctx(log, i, fail_setup, fail_teardown, tag=""):
+def _mk_ctx(log, i, fail_setup, fail_teardown, tag="", form="gen"):
+    """one cleanup context in one of the three accepted forms: async generator function,
+    @asynccontextmanager function, class-based async context manager"""
+    import contextlib
+
     async def ctx(app):
         if fail_setup:
             log.append(f"{tag}setup{i}-fail")
@@ -46,7 +50,27 @@ def _mk_ctx(log, i, fail_setup, fail_teardown, tag=""):
         if fail_teardown:
             raise Boom(f"teardown{i}")
 
-    return ctx
+    if form == "gen":
+        return ctx
+    if form == "acm":
+        return contextlib.asynccontextmanager(ctx)
+
+    class Ctx(contextlib.AbstractAsyncContextManager):
+        def __init__(self, app):
+            pass
+
+        async def __aenter__(self):
+            if fail_setup:
+                log.append(f"{tag}setup{i}-fail")
+                raise Boom(f"setup{i}")
+            log.append(f"{tag}setup{i}")
+
+        async def __aexit__(self, *exc):
+            log.append(f"{tag}teardown{i}")
+            if fail_teardown:
+                raise Boom(f"teardown{i}")
+
+    return Ctx
 
 
 def _check_log(log, n, tag=""):
@@ -72,13 +96,14 @@ def contexts(ctx, n=3, entry="runner", with_subapp=False, with_signals=False):
     app = web.Application()
     fs = [ctx.flag(f"fail_setup{i}") for i in range(n)]
     ft = [ctx.flag(f"fail_teardown{i}") for i in range(n)]
+    form = ctx.pick("context_form", ["gen", "acm", "class"])
     for i in range(n):
-        app.cleanup_ctx.append(_mk_ctx(log, i, fs[i], ft[i]))
+        app.cleanup_ctx.append(_mk_ctx(log, i, fs[i], ft[i], form=form))
     nsub = 0
     if with_subapp:
         sub = web.Application()
         sfs, sft = ctx.flag("sub_fail_setup"), ctx.flag("sub_fail_teardown")
-        sub.cleanup_ctx.append(_mk_ctx(log, 0, sfs, sft, tag="sub-"))
+        sub.cleanup_ctx.append(_mk_ctx(log, 0, sfs, sft, tag="sub-", form=form))
         app.add_subapp("/s", sub)
         nsub = 1
     if with_signals:
